@@ -19,6 +19,10 @@ RULE = ('Deviation-bounded exploration from 5 valid base command lines (wire dip
 ASSUMPTIONS = ['counts that would only make a run long are capped in the menu (<= 200 segments, <= 50 sweep steps, <= 400 directions)']
 
 TMP = tempfile.mkdtemp(prefix='c20-')
+# scratch directory for the files the writers are asked for: removed when the checking process ends (pool workers are forked
+# from it and share it; they leave through os._exit and do not run this)
+import atexit, shutil
+atexit.register(shutil.rmtree, TMP, ignore_errors=True)
 
 BASES = {
     'dip': ['-f', '30', '-w', '6,0,0,0,0,0,5,.002', '--excitation-pulse=3', '--theta=0,30,4', '--phi=0,90,3'],
